@@ -148,7 +148,7 @@ def register(R):
 
     # TransferFuture wrappers
     TF = f'{F}:TransferFuture'
-    R.add_fields(TF, _meta=ExtT('meta'), _coordinator=ObjT(TC, shared=True))
+    R.add_fields(TF, _coordinator=ObjT(TC, shared=True))
     R.contract(
         f'{TF}.set_exception', props=['C17'], params=dict(exception=ExtT('exception')),
         ensures=lambda c: {'delegates_with_override': z3.BoolVal(any(
